@@ -1,7 +1,10 @@
 """Build the Lean project for one property and audit its theorems.
 
 * `lake build driver_<id> VOPyVerif.Props.<ID>` — re-checks anything whose source changed.
-* obligations = every `theorem` declared in Props/<ID>.lean (namespace VOPy.<ID>).
+* obligations = every `theorem` declared in Props/<ID>.lean (theorems about the hand-written model) and in
+  Props/<ID>Source.lean if it exists (source-agreement obligations, DESIGN §2.10); both namespace VOPy.<ID>.
+  The two modules are built and audited separately; a source module that does not build is elaborated inline
+  and its failure attributed per theorem, so the model theorems (and the unaffected agreements) stay discharged.
 * audit: a scratch file importing the property module runs `#print axioms` on each obligation;
   allowed axioms are propext, Classical.choice, Quot.sound.
 * source scan for sorry/admit/axiom/native_decide/bv_decide/implemented_by/unsafe/maxHeartbeats 0
@@ -44,13 +47,26 @@ def strip_comments(src: str) -> str:
     return re.sub(r"--.*", "", s)
 
 
-def obligations(prop: str) -> list[str]:
-    f = LEAN_DIR / "VOPyVerif" / "Props" / f"{prop}.lean"
-    if not f.exists():
+def _theorems(path: Path) -> list[str]:
+    if not path.exists():
         return []
-    src = strip_comments(f.read_text())
-    names = re.findall(r"^\s*(?:protected\s+|private\s+)?theorem\s+([^\s:({\[]+)", src, re.M)
-    return [f"VOPy.{prop}.{n}" for n in names]
+    src = strip_comments(path.read_text())
+    return re.findall(r"^\s*(?:protected\s+|private\s+)?theorem\s+([^\s:({\[]+)", src, re.M)
+
+
+def model_obligations(prop: str) -> list[str]:
+    """theorems of Props/<ID>.lean: about the hand-written model only"""
+    return [f"VOPy.{prop}.{n}" for n in _theorems(LEAN_DIR / "VOPyVerif" / "Props" / f"{prop}.lean")]
+
+
+def source_obligations(prop: str) -> list[str]:
+    """theorems of Props/<ID>Source.lean (if present): the model's definitions are the ones regenerated from the
+    current source text (DESIGN §2.10); same namespace, own module, so that they fail independently"""
+    return [f"VOPy.{prop}.{n}" for n in _theorems(LEAN_DIR / "VOPyVerif" / "Props" / f"{prop}Source.lean")]
+
+
+def obligations(prop: str) -> list[str]:
+    return model_obligations(prop) + source_obligations(prop)
 
 
 def run(cmd, timeout=3600):
@@ -58,11 +74,150 @@ def run(cmd, timeout=3600):
     return p.returncode, p.stdout + p.stderr
 
 
+def _read_axioms(out: str, names: list[str]) -> dict:
+    """name -> set of axioms, for every name `#print axioms` reported on"""
+    flat = re.sub(r"\s+", " ", out)
+    got = {}
+    for n in names:
+        m = re.search(r"'" + re.escape(n) + r"' depends on axioms: \[([^\]]*)\]", flat)
+        if m:
+            got[n] = {a.strip() for a in m.group(1).split(",") if a.strip()}
+        elif re.search(r"'" + re.escape(n) + r"' does not depend on any axioms", flat):
+            got[n] = set()
+    return got
+
+
+def _audit_import(res: dict, tag: str, module: str, names: list[str], bad: list) -> None:
+    """the module built: a scratch file importing it runs `#print axioms` on each of its obligations"""
+    if not names:
+        return
+    adir = OUT / "audit"
+    adir.mkdir(parents=True, exist_ok=True)
+    af = adir / f"Audit_{tag}.lean"
+    af.write_text(f"import {module}\n" + "".join(f"#print axioms {n}\n" for n in names))
+    rc, out = run(["lake", "env", "lean", str(af)])
+    got = _read_axioms(out, names)
+    for n in names:
+        if n not in got:
+            res["failures"].append(f"audit: no axiom report for {n}")
+            res["failed_obligations"].append(n)
+            continue
+        res["axioms"][n] = sorted(got[n])
+        if got[n] <= ALLOWED and not bad:
+            res["discharged"].append(n)
+        else:
+            res["failures"].append(f"audit: {n} depends on {sorted(got[n] - ALLOWED)}")
+            res["failed_obligations"].append(n)
+    if rc != 0:
+        res["failures"].append("audit file failed to elaborate: " + out[-500:])
+
+
+def _module_path(module: str) -> Path:
+    return LEAN_DIR / (module.replace(".", "/") + ".lean")
+
+
+def _split_imports(text: str) -> tuple[list[str], str]:
+    imports, rest, in_head = [], [], True
+    for line in text.splitlines():
+        m = re.match(r"\s*import\s+(\S+)\s*$", line)
+        if in_head and m:
+            imports.append(m.group(1))
+            continue
+        if in_head and line.strip() and not line.lstrip().startswith("--"):
+            in_head = False
+        rest.append(line)
+    return imports, "\n".join(rest) + "\n"
+
+
+def _inline(module: str, kept: list[str], bodies: list[tuple[str, str]], seen: set) -> None:
+    """`module` does not build: take its text instead of importing it; its imports are kept if they build and
+    inlined (recursively, before it) if they do not"""
+    if module in seen:
+        return
+    seen.add(module)
+    imports, body = _split_imports(_module_path(module).read_text())
+    for m in imports:
+        if m.startswith("VOPyVerif.") and _module_path(m).exists() and run(["lake", "build", m])[0] != 0:
+            _inline(m, kept, bodies, seen)
+        elif m not in kept:
+            kept.append(m)
+    bodies.append((module, body))
+
+
+def _decl_ranges(lines: list[str]) -> list[tuple[int, str]]:
+    """(first line of the declaration incl. its doc-comment, name) for every theorem / def of the text"""
+    out = []
+    for i, l in enumerate(lines, 1):
+        m = re.match(r"\s*(?:noncomputable\s+|protected\s+|private\s+)*(?:theorem|def|abbrev|inductive)\s+([^\s:({\[]+)", l)
+        if m:
+            start = i
+            if i >= 2 and lines[i - 2].rstrip().endswith("-/"):
+                j = i - 1
+                while j >= 1 and "/--" not in lines[j - 1]:
+                    j -= 1
+                start = max(j, 1)
+            out.append((start, m.group(1)))
+    return out
+
+
+def _audit_inline(res: dict, prop: str, module: str, names: list[str], bad: list) -> None:
+    """The source-agreement module (or an agreement module under it) does not build.  Elaborate its text — with
+    the text of every non-building module it imports in front — in ONE scratch file and ask `#print axioms` for each
+    obligation: Lean keeps going after an error (a theorem whose proof fails is admitted with `sorryAx`, one whose
+    statement fails does not exist), so exactly the obligations that depend on a broken agreement come out as
+    failing, by name; the others are discharged as usual."""
+    kept, bodies, seen = [], [], set()
+    _inline(module, kept, bodies, seen)
+    text = "".join(f"import {m}\n" for m in kept)
+    for m, body in bodies:
+        text += f"-- ===== inlined {m} =====\n" + body
+    text += "-- ===== audit =====\n" + "".join(f"#print axioms {n}\n" for n in names)
+    adir = OUT / "audit"
+    adir.mkdir(parents=True, exist_ok=True)
+    af = adir / f"Audit_{prop}Source_inline.lean"
+    af.write_text(text)
+    rc, out = run(["lake", "env", "lean", str(af)])
+    got = _read_axioms(out, names)
+    lines = text.splitlines()
+    decls = _decl_ranges(lines)
+    errs = []  # (line, first line of the message)
+    for m in re.finditer(r"^[^\n]*?:(\d+):\d+: error:? ?([^\n]*)((?:\n(?![^\n]*:\d+:\d+: )[^\n]*){0,2})", out, re.M):
+        errs.append((int(m.group(1)), " ".join((m.group(2) + m.group(3)).split())))
+    broken = []
+    for ln, _ in errs:
+        c = [nm for (i, nm) in decls if i <= ln]
+        if c and c[-1] not in broken:
+            broken.append(c[-1])
+    failing = []
+    for n in names:
+        ax = got.get(n)
+        if ax is not None:
+            res["axioms"][n] = sorted(ax)
+        if ax is not None and ax <= ALLOWED and not bad:
+            res["discharged"].append(n)
+        else:
+            failing.append(n)
+    res["failed_obligations"] += failing
+    first = errs[0][1] if errs else out.strip().splitlines()[-1] if out.strip() else "no error text"
+    if failing:
+        res["failures"].append(
+            "source agreement: " + ", ".join(failing) + " no longer check: " + first[:200]
+            + (" [broken declarations: " + ", ".join(broken[:12]) + "]" if broken else ""))
+    else:
+        res["failures"].append(f"{module} does not build although every obligation in it checks: " + first[:200])
+    res["source_log"] = out[-3000:]
+
+
 def ensure(prop: str) -> dict:
-    """Returns dict(build_ok, driver_ok, obligations, discharged, failures, axioms, log, wall_s)."""
+    """Returns dict(build_ok, driver_ok, obligations, discharged, failures, failed_obligations, axioms, log, wall_s).
+
+    Two modules per property, built and audited separately: `Props/<ID>.lean` (theorems about the hand-written
+    model) and, if present, `Props/<ID>Source.lean` (source-agreement obligations, DESIGN §2.10).  A module that
+    fails to build marks only ITS theorems as failures — the source module per theorem (`_audit_inline`)."""
     t0 = time.time()
-    res = {"obligations": obligations(prop), "discharged": [], "failures": [], "axioms": {},
-           "build_ok": False, "driver_ok": False}
+    model, source = model_obligations(prop), source_obligations(prop)
+    res = {"obligations": model + source, "discharged": [], "failures": [], "failed_obligations": [], "axioms": {},
+           "build_ok": False, "driver_ok": False, "source_build_ok": None}
     rc, log = run(["lake", "build", f"driver_{prop.lower()}"])
     res["driver_ok"] = rc == 0
     if rc != 0:
@@ -74,6 +229,7 @@ def ensure(prop: str) -> dict:
     if rc != 0:
         res["log"] = log[-4000:]
         res["failures"].append(f"lake build VOPyVerif.Props.{prop} failed")
+        res["failed_obligations"] += model
     # forbidden tokens
     bad = []
     for f in sorted((LEAN_DIR / "VOPyVerif").rglob("*.lean")) + sorted((LEAN_DIR / "Drivers").glob("*.lean")):
@@ -82,31 +238,19 @@ def ensure(prop: str) -> dict:
     if bad:
         res["failures"].append("forbidden tokens: " + "; ".join(bad[:10]))
     res["forbidden"] = bad
-    if res["build_ok"] and res["obligations"]:
-        adir = OUT / "audit"
-        adir.mkdir(parents=True, exist_ok=True)
-        af = adir / f"Audit_{prop}.lean"
-        af.write_text(
-            f"import VOPyVerif.Props.{prop}\n"
-            + "".join(f"#print axioms {n}\n" for n in res["obligations"])
-        )
-        rc, out = run(["lake", "env", "lean", str(af)])
-        flat = re.sub(r"\s+", " ", out)
-        for n in res["obligations"]:
-            m = re.search(r"'" + re.escape(n) + r"' depends on axioms: \[([^\]]*)\]", flat)
-            if m:
-                ax = {a.strip() for a in m.group(1).split(",") if a.strip()}
-            elif re.search(r"'" + re.escape(n) + r"' does not depend on any axioms", flat):
-                ax = set()
-            else:
-                res["failures"].append(f"audit: no axiom report for {n}")
-                continue
-            res["axioms"][n] = sorted(ax)
-            if ax <= ALLOWED and not bad:
-                res["discharged"].append(n)
-            else:
-                res["failures"].append(f"audit: {n} depends on {sorted(ax - ALLOWED)}")
-        if rc != 0:
-            res["failures"].append("audit file failed to elaborate: " + out[-500:])
+    if res["build_ok"]:
+        _audit_import(res, prop, f"VOPyVerif.Props.{prop}", model, bad)
+    if source:
+        smod = f"VOPyVerif.Props.{prop}Source"
+        rc, slog = run(["lake", "build", smod])
+        res["source_build_ok"] = rc == 0
+        if rc == 0:
+            _audit_import(res, prop + "Source", smod, source, bad)
+        elif not res["build_ok"]:
+            res["failures"].append(f"lake build {smod} failed (it imports the model theorems, which do not build)")
+            res["failed_obligations"] += source
+        else:
+            res["log"] = (res.get("log", "") + slog[-3000:])[-4000:]
+            _audit_inline(res, prop, smod, source, bad)
     res["wall_s"] = round(time.time() - t0, 2)
     return res
